@@ -1,10 +1,22 @@
 #!/bin/bash
-# usage: commit_contracts.sh "<message>" Cxx [Cyy ...]
-# runs the quick checks named, and only if every one exits 0 commits the contract edits in /repo
-# (message prefixed "verif: ") and appends the commit to MANIFEST hooks.source_commits.
+# usage: commit_contracts.sh "<message>" [Cxx ...]
+# Commits the contract edits in /repo only if the quick checks pass on the tree as edited. Checked are:
+# the properties named, every property named in a `//@ prop` line of a modified or new contract file,
+# and ALL properties when a package many others call into (vm, stackitem, io, util, dao, interop,
+# transaction, block, storage) is touched. The commit is appended to MANIFEST hooks.source_commits.
 msg=$1; shift
+cd /repo || exit 2
+files=$(git status --porcelain pkg | awk '{print $2}' | grep verif_contracts)
+nonc=$(git status --porcelain pkg | awk '{print $2}' | grep -v verif_contracts)
+if [ -n "$nonc" ]; then echo "NOT COMMITTED: non-contract files modified: $nonc"; exit 1; fi
+props="$@"
+for f in $files; do props="$props $(grep -h '^//@ prop' $f | sed 's/^\/\/@ prop //; s/,/ /g')"; done
+if echo "$files" | grep -q "pkg/vm/\|pkg/io/\|pkg/util/\|pkg/core/dao/\|pkg/core/interop/verif\|pkg/core/transaction/\|pkg/core/block/\|pkg/core/storage/"; then
+  props="C04 C05 C06 C07 C08 C09 C10 C11 C12 C13 C15 C16 C17 C18"
+fi
+props=$(echo $props | tr ' ' '\n' | grep '^C[0-9][0-9]$' | sort -u)
 cd /verif || exit 2
-for c in "$@"; do
+for c in $props; do
   out=$(./check $c quick 2>&1); rc=$?
   echo "$out" | tail -1
   if [ $rc -ne 0 ]; then echo "$out" | grep "VIOLATION\|ENGINE" | head; echo "NOT COMMITTED: $c fails"; exit 1; fi
